@@ -170,7 +170,7 @@ func (g *Generator) makeTypeMismatch() {
 
 func (g *Generator) makeFuncMap(f1, f2 *Field) {
 	for _, fn := range g.mappingFuncList {
-		if !g.writeDestSet.Has(f2.Name) && !f2.IsGet {
+		if !g.writeDestSet.Has(f2.Name) && !f2.IsGet && !f1.IsSet {
 			//in ToXxx, mapping func's param type is src field type
 			if shoot.TypeEquals(fn.Param, f1.typ) && shoot.TypeEquals(fn.Result, f2.typ) {
 				f1.Target = f2
@@ -180,7 +180,7 @@ func (g *Generator) makeFuncMap(f1, f2 *Field) {
 			}
 		}
 
-		if !g.writeSrcSet.Has(f1.Name) && !f1.IsGet {
+		if !g.writeSrcSet.Has(f1.Name) && !f1.IsGet && !f2.IsSet {
 			//in FromXxx, mapping func's param type is dest field type
 			if shoot.TypeEquals(fn.Param, f2.typ) && shoot.TypeEquals(fn.Result, f1.typ) {
 				f2.Target = f1
@@ -215,7 +215,7 @@ func (g *Generator) makeSubMap(f1, f2 *Field, typ1, typ2 types.Type, isSlice boo
 			pkgpath2 := n2.Obj().Pkg().Path()
 
 			if pkgpath1 == g.Pkg().PkgPath && pkgpath2 == g.destPkg.PkgPath {
-				if !g.writeDestSet.Has(f2.Name) && !f2.IsGet {
+				if !g.writeDestSet.Has(f2.Name) && !f2.IsGet && !f1.IsSet {
 					//f2 = f1.ToDest()
 					f1.Target = f2
 					if isSlice {
@@ -229,7 +229,7 @@ func (g *Generator) makeSubMap(f1, f2 *Field, typ1, typ2 types.Type, isSlice boo
 					g.writeDestSet.Adds(f2.Name)
 					g.readSrcMap[f1.Name] = f2.Name
 				}
-				if !g.writeSrcSet.Has(f1.Name) && !f1.IsGet {
+				if !g.writeSrcSet.Has(f1.Name) && !f1.IsGet && !f2.IsSet {
 					f2.Target = f1
 					if isSlice {
 						f1.CanEachMap = true
